@@ -44,6 +44,16 @@ let parse_tok (t : string) : tok =
     let inner = String.sub t 1 (String.length t - 2) in
     if inner = "" then L [] else L (List.map Z.of_string (String.split_on_char ',' inner))
   end
+  else if t = "gQ" then I BabyJub.coq_Q
+  else if t = "gZero" then I Z.zero
+  else if t = "gOne" then I Z.one
+  else if t = "gMinusOne" then I Z.minus_one
+  else if t = "gA" then I BabyJub.coq_A
+  else if t = "gD" then I BabyJub.coq_D
+  else if t = "gOrder" then I BabyJub.coq_Order
+  else if t = "gSubOrder" then I BabyJub.coq_SubOrder
+  else if t = "gB8x" then I (fst BabyJub.coq_B8)
+  else if t = "gB8y" then I (snd BabyJub.coq_B8)
   else match Z.of_string t with
     | v -> I v
     | exception _ -> W t
@@ -263,6 +273,9 @@ let dispatch (op : string) (a : tok list) : string =
   | "mul" -> pt (BabyJub.coq_Mul (i 0) (p 1))
   | "mulrecv" | "mulalias" -> let r = BabyJub.coq_Mul (i 0) (p 1) in pt r ^ " " ^ pt r
   | "pset" -> pt (p 0) ^ " " ^ pt (p 0)
+  | "mulB8" -> pt (BabyJub.coq_Mul (i 0) BabyJub.coq_B8)
+  | "incurveB8" -> boolS (BabyJub.coq_InCurve BabyJub.coq_B8) ^ " " ^ boolS (BabyJub.coq_InSubGroup BabyJub.coq_B8)
+  | "compressB8" -> xB (BabyJub.coq_Compress BabyJub.coq_B8)
   | "incurve" -> boolS (BabyJub.coq_InCurve (p 0))
   | "insub" -> boolS (BabyJub.coq_InSubGroup (p 0))
   | "csign" -> boolS (BabyJub.coq_PointCoordSign (i 0))
